@@ -3,6 +3,8 @@ import Norad.Lemmas.GlifTables
 import Norad.Lemmas.JudgeLink
 import Norad.Lemmas.JudgeDoc
 import Norad.Lemmas.JudgeConverse
+import Norad.Lemmas.JudgeBody
+import Norad.Lemmas.JudgeFlag
 import Norad.Generated.GlifParser
 import Norad.Lemmas.C02
 import Norad.Lemmas.GlifGen
@@ -1343,7 +1345,8 @@ theorem jd0_shaped : Shaped jd0 := by
   rcases hit with rfl | rfl | rfl | rfl | rfl | rfl
   · trivial
   · exact ⟨by intro as h; cases h; decide, by decide⟩
-  · intro k hk
+  · refine ⟨?_, fun h => by cases h⟩
+    intro k hk
     simp only [List.mem_cons, List.not_mem_nil, or_false] at hk
     rcases hk with rfl | rfl | rfl | rfl
     · trivial
@@ -1371,6 +1374,7 @@ example : ∃ g, parseGlif (fun _ => some 0) (Spec.flatten jd1) = .ok g :=
       intro it hit
       simp only [jd1, List.mem_cons, List.not_mem_nil, or_false] at hit
       subst hit
+      refine ⟨?_, fun h => by cases h⟩
       intro k hk
       simp only [List.mem_cons, List.not_mem_nil, or_false] at hk
       subst hk
@@ -1379,5 +1383,334 @@ example : ∃ g, parseGlif (fun _ => some 0) (Spec.flatten jd1) = .ok g :=
       simp only [List.mem_cons, List.not_mem_nil, or_false] at hc
       subst hc
       exact ⟨(by intro as h; cases h; decide), rfl⟩)⟩
+
+
+section
+open Spec
+variable {rd : Str → Option Nat}
+
+/-! ### the converse of the `Spec.judge` link, family by family
+
+Every theorem below is `judge_bad_item_rejected` (the exact state after the clean prefix, `CleanState`) applied to one
+constructor of `BodyBad`. -/
+
+/-- what the corollaries share: the items before `bad` are `judge`-clean and shaped, the glyph has format `ver` -/
+structure CleanPrefix (rd : Str → Option Nat) (d : Doc) (pre : List Item) (bad : Item) (post : List Item) (ver : Nat) : Prop where
+  items : d.items = pre ++ bad :: post
+  clean : Spec.judge rd { d with items := pre } = ([], false)
+  shaped : Shaped { d with items := pre }
+  ver : (docVersion d).1 = some ver
+
+theorem rejected_of_bodyBad (law : ReadsNumerals rd) {d : Doc} {pre post : List Item} {bad : Item} {ver : Nat}
+    (h : CleanPrefix rd d pre bad post ver) (hb : BodyBad rd ver pre bad) :
+    accepted (parseGlif rd (Spec.flatten d)) = false :=
+  judge_bad_item_rejected law h.items h.clean h.shaped h.ver hb
+
+/-- **a second advance, outline, lib or image** (`dup-advance`, `dup-outline`, `dup-lib`, `dup-image`) is rejected -/
+theorem duplicate_once_only_rejected (law : ReadsNumerals rd) {d : Doc} {pre post : List Item} {bad : Item} {ver : Nat}
+    (h : CleanPrefix rd d pre bad post ver) {n : Str} (hn : itemName bad = some n)
+    (hcase : n = sAdvance ∨ n = sOutline ∨ n = sLib ∨ n = sImage) (hc : 0 < cnt pre n) :
+    accepted (parseGlif rd (Spec.flatten d)) = false :=
+  rejected_of_bodyBad law h (.dupOnce bad n hn hcase hc)
+
+/-- **a second note** (`dup-note`) is rejected when an earlier note has text — when the earlier note is empty norad accepts
+    the second one: recorded finding `repeated-note-after-empty-note` -/
+theorem duplicate_note_rejected (law : ReadsNumerals rd) {d : Doc} {pre post : List Item} {bad : Item} {ver : Nat}
+    (h : CleanPrefix rd d pre bad post ver) (hn : itemName bad = some sNote) (hex : ∃ x, x ∈ pre ∧ noteWithText x) :
+    accepted (parseGlif rd (Spec.flatten d)) = false :=
+  rejected_of_bodyBad law h (.dupNote bad hn hex)
+
+theorem attrTable_body {n : Str} (hb : bodyNames.contains n = true) : ∃ tbl, attrTable n = some tbl := by
+  simp only [bodyNames, List.contains_cons, List.contains_nil, Bool.or_false, Bool.or_eq_true, beq_iff_eq] at hb
+  have h5 : (attrTable sAdvance).isSome = true ∧ (attrTable sUnicode).isSome = true ∧ (attrTable sAnchor).isSome = true ∧
+      (attrTable sGuideline).isSome = true ∧ (attrTable sImage).isSome = true := by decide
+  rcases hb with h | h | h | h | h <;> rw [h]
+  · exact Option.isSome_iff_exists.1 h5.1
+  · exact Option.isSome_iff_exists.1 h5.2.1
+  · exact Option.isSome_iff_exists.1 h5.2.2.1
+  · exact Option.isSome_iff_exists.1 h5.2.2.2.1
+  · exact Option.isSome_iff_exists.1 h5.2.2.2.2
+
+/-- **every rule `Spec.elemCheck` reports for an advance, unicode, anchor, guideline or image** — a missing required attribute
+    (`required`), a malformed number (`number`), an angle out of range (`angle`), an invalid name (`name`), colour (`color`),
+    code point (`hex`), identifier (`ident-invalid`, `v1-attr`), image file name (`image-name`), an unknown attribute
+    (`unknown-attr`), a guideline that has none of the three shapes (`guideline-shape`) — makes the parser reject the
+    document; excluded are exactly the two value findings (`ident-empty`, `hex-plus`: norad accepts) and `v1-element` (see
+    `judge_hard_error_rejected`) -/
+theorem element_rule_rejected (law : ReadsNumerals rd) (lawT : ReadsTrimmed rd) {d : Doc} {pre post : List Item} {ver : Nat}
+    {e : Elem} {as : List Attr} (h : CleanPrefix rd d pre (.elem e) post ver)
+    (hb : bodyNames.contains e.name = true) (ha : e.attrs = some as) (hnd : (as.map (·.1)).Nodup)
+    {r : String} (hr : r ∈ (elemCheck rd ver e).1) (hnf : r ∉ findingValueRules) (hv1 : r ≠ "v1-element") :
+    accepted (parseGlif rd (Spec.flatten d)) = false := by
+  obtain ⟨tbl, ht⟩ := attrTable_body hb
+  exact rejected_of_bodyBad law h (.elem e as hb ha (elemCheck_elemBad lawT ht ha hnd hr hnf hv1))
+
+/-- **an identifier used before** (`ident-dup`), on an anchor or a guideline, is rejected -/
+theorem duplicate_identifier_rejected (law : ReadsNumerals rd) {d : Doc} {pre post : List Item} {ver : Nat}
+    {e : Elem} {as : List Attr} {i : Str} (h : CleanPrefix rd d pre (.elem e) post ver)
+    (hn : e.name = sAnchor ∨ e.name = sGuideline) (ha : e.attrs = some as) (hi : (sIdentifier, i) ∈ as)
+    (hseen : i ∈ pre.flatMap itemIdents) :
+    accepted (parseGlif rd (Spec.flatten d)) = false := by
+  have hb : bodyNames.contains e.name = true := by rcases hn with h | h <;> rw [h] <;> decide
+  refine rejected_of_bodyBad law h (.elem e as hb ha (.attr (sIdentifier, i) hi ?_))
+  have hrf : readIdent ver (pre.flatMap itemIdents) i = none := readIdent_seen ver hseen
+  rcases hn with h | h <;> rw [h] <;> exact hrf
+
+/-- **inside the outline**: clean children, then one the parser refuses (`OBad`) -/
+theorem outline_child_rejected (law : ReadsNumerals rd) {d : Doc} {pre post : List Item} {ver : Nat}
+    {a : Option (List Attr)} {kpre kpost : List OItem} {kbad : OItem}
+    (h : CleanPrefix rd d pre (.outline a false (kpre ++ kbad :: kpost)) post ver)
+    (hk : OKidsClean rd ver (pre.flatMap itemIdents) kpre)
+    (hb : OBad rd ver (pre.flatMap itemIdents ++ kpre.flatMap oitemIdents) kbad) :
+    accepted (parseGlif rd (Spec.flatten d)) = false :=
+  rejected_of_bodyBad law h (.outlineChild a kpre kbad kpost hk hb)
+
+/-- **an element inside the outline that is neither `contour` nor `component`** (`unknown-element`) is rejected -/
+theorem unknown_in_outline_rejected (law : ReadsNumerals rd) {d : Doc} {pre post : List Item} {ver : Nat}
+    {a : Option (List Attr)} {kpre kpost : List OItem} {e : Elem}
+    (h : CleanPrefix rd d pre (.outline a false (kpre ++ .elem e :: kpost)) post ver)
+    (hk : OKidsClean rd ver (pre.flatMap itemIdents) kpre) (h1 : e.name ≠ sComponent) (h2 : e.name ≠ sContour) :
+    accepted (parseGlif rd (Spec.flatten d)) = false :=
+  outline_child_rejected law h hk (.unknown e h1 h2)
+
+/-- **every rule `Spec.elemCheck` reports for a component** (missing `base`, malformed transform number, invalid base name,
+    invalid / repeated / format-1 identifier, unknown attribute) is rejected -/
+theorem component_rule_rejected (law : ReadsNumerals rd) (lawT : ReadsTrimmed rd) {d : Doc} {pre post : List Item} {ver : Nat}
+    {a : Option (List Attr)} {kpre kpost : List OItem} {e : Elem} {as : List Attr}
+    (h : CleanPrefix rd d pre (.outline a false (kpre ++ .elem e :: kpost)) post ver)
+    (hk : OKidsClean rd ver (pre.flatMap itemIdents) kpre) (hn : e.name = sComponent) (ha : e.attrs = some as)
+    (hnd : (as.map (·.1)).Nodup) {r : String} (hr : r ∈ (elemCheck rd ver e).1) (hnf : r ∉ findingValueRules)
+    (hv1 : r ≠ "v1-element") :
+    accepted (parseGlif rd (Spec.flatten d)) = false := by
+  have ht : ∃ tbl, attrTable e.name = some tbl := by
+    rw [hn]; exact Option.isSome_iff_exists.1 (by decide)
+  obtain ⟨tbl, ht⟩ := ht
+  have hbad := elemCheck_elemBad (seen := pre.flatMap itemIdents ++ kpre.flatMap oitemIdents) lawT ht ha hnd hr hnf hv1
+  rw [hn] at hbad
+  exact outline_child_rejected law h hk (.component e as hn ha hbad)
+
+/-- **an illegal point sequence** (`contour`: the contour rule of C11 is broken, `¬ C11.Legal`) is rejected at `</contour>`,
+    after clean siblings, a clean start tag and clean points -/
+theorem illegal_contour_rejected (law : ReadsNumerals rd) {d : Doc} {pre post : List Item} {ver : Nat}
+    {a : Option (List Attr)} {kpre kpost : List OItem} {as : List Attr} {kids : List CItem}
+    (h : CleanPrefix rd d pre (.outline a false (kpre ++ .contour (some as) false kids :: kpost)) post ver)
+    (hk : OKidsClean rd ver (pre.flatMap itemIdents) kpre)
+    (hst : CtStartClean ver (pre.flatMap itemIdents ++ kpre.flatMap oitemIdents) as)
+    (hkids : CKidsClean rd ver (pre.flatMap itemIdents ++ kpre.flatMap oitemIdents ++ (Spec.get as "identifier").toList) kids)
+    (hill : ¬ C11.Legal ((contourElems kids).map ptOfElem)) :
+    accepted (parseGlif rd (Spec.flatten d)) = false := by
+  refine outline_child_rejected law h hk (.contourIllegal as kids hst hkids ?_)
+  cases hl : C11.legalB ((contourElems kids).map ptOfElem) with
+  | false => rfl
+  | true => exact absurd ((C11.legalB_iff_legal _).1 hl) hill
+
+/-- **every rule `Spec.elemCheck` reports for a point** (missing `x`/`y`, malformed number, invalid name, unknown `type`,
+    invalid / repeated / format-1 identifier, unknown attribute), after clean siblings and clean earlier points -/
+theorem point_rule_rejected (law : ReadsNumerals rd) (lawT : ReadsTrimmed rd) {d : Doc} {pre post : List Item} {ver : Nat}
+    {a : Option (List Attr)} {kpre kpost : List OItem} {cas : List Attr} {cpre cpost : List CItem} {e : Elem} {as : List Attr}
+    (h : CleanPrefix rd d pre (.outline a false (kpre ++ .contour (some cas) false (cpre ++ .elem e :: cpost) :: kpost)) post ver)
+    (hk : OKidsClean rd ver (pre.flatMap itemIdents) kpre)
+    (hst : CtStartClean ver (pre.flatMap itemIdents ++ kpre.flatMap oitemIdents) cas)
+    (hkids : CKidsClean rd ver (pre.flatMap itemIdents ++ kpre.flatMap oitemIdents ++ (Spec.get cas "identifier").toList) cpre)
+    (hn : e.name = sPoint) (ha : e.attrs = some as) (hnd : (as.map (·.1)).Nodup)
+    {r : String} (hr : r ∈ (elemCheck rd ver e).1) (hnf : r ∉ findingValueRules) (hv1 : r ≠ "v1-element") :
+    accepted (parseGlif rd (Spec.flatten d)) = false := by
+  have ht : ∃ tbl, attrTable e.name = some tbl := by
+    rw [hn]; exact Option.isSome_iff_exists.1 (by decide)
+  obtain ⟨tbl, ht⟩ := ht
+  have hbad := elemCheck_elemBad (seen := pre.flatMap itemIdents ++ kpre.flatMap oitemIdents ++
+    (Spec.get cas "identifier").toList ++ cpre.flatMap citemIdents) lawT ht ha hnd hr hnf hv1
+  rw [hn] at hbad
+  exact outline_child_rejected law h hk (.contourChild cas cpre (.elem e) cpost hst hkids (.point e as hn ha hbad))
+
+/-- **an element inside a contour that is not a `point`** (`unknown-element`) is rejected -/
+theorem unknown_in_contour_rejected (law : ReadsNumerals rd) {d : Doc} {pre post : List Item} {ver : Nat}
+    {a : Option (List Attr)} {kpre kpost : List OItem} {cas : List Attr} {cpre cpost : List CItem} {e : Elem}
+    (h : CleanPrefix rd d pre (.outline a false (kpre ++ .contour (some cas) false (cpre ++ .elem e :: cpost) :: kpost)) post ver)
+    (hk : OKidsClean rd ver (pre.flatMap itemIdents) kpre)
+    (hst : CtStartClean ver (pre.flatMap itemIdents ++ kpre.flatMap oitemIdents) cas)
+    (hkids : CKidsClean rd ver (pre.flatMap itemIdents ++ kpre.flatMap oitemIdents ++ (Spec.get cas "identifier").toList) cpre)
+    (hn : e.name ≠ sPoint) :
+    accepted (parseGlif rd (Spec.flatten d)) = false :=
+  outline_child_rejected law h hk (.contourChild cas cpre (.elem e) cpost hst hkids (.unknown e hn))
+
+/-- the rules of `Spec.itemCheck` that correspond to a recorded finding, i.e. where norad accepts what `judge` flags:
+    `container-attrs` (`container-attributes-unexamined`), `ident-empty` (`empty-identifier-accepted`), `hex-plus`
+    (`hex-plus-sign-accepted`).  At document level two more clauses of `judge` are findings: `dup-note` when the earlier note
+    has no text (`repeated-note-after-empty-note`) and `objlib-entry` (`unmatched-object-lib-not-dictionary`). -/
+def findingItemRules : List String := ["container-attrs", "ident-empty", "hex-plus"]
+
+/-- **every rule `Spec.itemCheck` reports for a body item that is not an outline, other than a finding rule, makes the parser
+    reject the document** (first such item after a clean prefix): `unknown-element`, `v1-element`, `lib`, `attr-syntax` and
+    all the element rules of `element_rule_rejected` -/
+theorem body_item_rule_rejected (law : ReadsNumerals rd) (lawT : ReadsTrimmed rd) {d : Doc} {pre post : List Item} {bad : Item}
+    {ver : Nat} (h : CleanPrefix rd d pre bad post ver) (hsh : IShaped bad)
+    (hno : ∀ a sc kids, bad ≠ .outline a sc kids) (hne : ∀ e, bad = .elem e → e.name ≠ sOutline)
+    {r : String} (hr : r ∈ (itemCheck rd ver bad).1) (hnf : r ∉ findingItemRules) :
+    accepted (parseGlif rd (Spec.flatten d)) = false := by
+  have hnf' : r ∉ findingValueRules := by
+    intro hm
+    simp only [findingValueRules, List.mem_cons, List.not_mem_nil, or_false] at hm
+    apply hnf
+    rcases hm with rfl | rfl <;> decide
+  have hca : r ≠ "container-attrs" := by intro e; subst e; exact hnf (by decide)
+  cases bad with
+  | comment => simp [itemCheck] at hr
+  | outline a sc kids => exact absurd rfl (hno a sc kids)
+  | note a kids =>
+    simp only [itemCheck] at hr
+    obtain ⟨x, hx, hrx⟩ := mem_merge hr
+    simp only [List.mem_cons, List.not_mem_nil, or_false] at hx
+    rcases hx with rfl | rfl
+    · simp only at hrx
+      cases a with
+      | none => simp [containerAttrs] at hrx; exact absurd hrx hca
+      | some as => cases as <;> simp [containerAttrs] at hrx; exact absurd hrx hca
+    · simp only at hrx
+      by_cases hv : ver = 1
+      · exact rejected_of_bodyBad law h (.hard _ (.v1Note a kids hv))
+      · simp [hv] at hrx
+  | lib a v inner =>
+    simp only [itemCheck] at hr
+    obtain ⟨x, hx, hrx⟩ := mem_merge hr
+    simp only [List.mem_cons, List.not_mem_nil, or_false] at hx
+    rcases hx with rfl | rfl
+    · simp only at hrx
+      cases a with
+      | none => simp [containerAttrs] at hrx; exact absurd hrx hca
+      | some as => cases as <;> simp [containerAttrs] at hrx; exact absurd hrx hca
+    · simp only at hrx
+      refine rejected_of_bodyBad law h (.hard _ (.libNotDict a v inner ?_ hsh))
+      intro dd hd; subst hd; simp at hrx
+  | elem e =>
+    obtain ⟨hndA, hsc⟩ := hsh
+    simp only [itemCheck] at hr
+    by_cases hb : bodyNames.contains e.name = true
+    · simp only [hb, if_true] at hr
+      have hnn : e.name ≠ sNote := by intro hh; rw [hh] at hb; exact absurd hb (by decide)
+      simp only [hnn, if_false] at hsc
+      cases ha : e.attrs with
+      | none => exact rejected_of_bodyBad law h (.attrSyntax e hb ha)
+      | some as =>
+        by_cases hv1 : r = "v1-element"
+        · subst hv1
+          -- `v1-element` comes from the last clause of `elemCheck` only
+          obtain ⟨tbl, ht⟩ := attrTable_body hb
+          unfold elemCheck at hr
+          simp only [ht, ha] at hr
+          obtain ⟨x, hx, hrx⟩ := mem_merge hr
+          rcases List.mem_append.1 hx with hx | hx
+          · obtain ⟨at', _, rfl⟩ := List.mem_map.1 hx
+            exfalso
+            revert hrx
+            cases hf : tbl.find? (fun t => t.1.toList = at'.1) with
+            | none => simp
+            | some p =>
+              obtain ⟨nm, k⟩ := p
+              simp only
+              split
+              · simp
+              · intro hrx
+                cases k <;> simp only [valueCheck] at hrx <;> repeat' split at hrx
+                all_goals simp at hrx
+          · simp only [List.mem_cons, List.not_mem_nil, or_false] at hx
+            rcases hx with rfl | rfl | rfl
+            · simp at hrx
+            · simp only at hrx
+              split at hrx
+              · repeat' split at hrx
+                all_goals simp at hrx
+              · cases hrx
+            · simp only at hrx
+              split at hrx
+              · rename_i hcond
+                simp only [beq_iff_eq] at hcond
+                exact rejected_of_bodyBad law h (.hard _ (.v1Element e hcond.1 hcond.2 hsc))
+              · cases hrx
+        · obtain ⟨tbl, ht⟩ := attrTable_body hb
+          exact rejected_of_bodyBad law h (.elem e as hb ha (elemCheck_elemBad lawT ht ha (hndA as ha) hr hnf' hv1))
+    · simp only [hb, Bool.false_eq_true, if_false] at hr
+      by_cases hn : e.name = sNote
+      · simp only [hn, if_true] at hr
+        obtain ⟨x, hx, hrx⟩ := mem_merge hr
+        simp only [List.mem_cons, List.not_mem_nil, or_false] at hx
+        rcases hx with rfl | rfl
+        · simp only at hrx
+          cases ha : e.attrs with
+          | none => simp [containerAttrs, ha] at hrx; exact absurd hrx hca
+          | some as => cases as <;> simp [containerAttrs, ha] at hrx; exact absurd hrx hca
+        · simp only at hrx
+          by_cases hv : ver = 1
+          · exact rejected_of_bodyBad law h (.v1NoteElem e hv hn)
+          · simp [hv] at hrx
+      · simp only [hn, if_false] at hr
+        by_cases hl : e.name = sLib
+        · exact rejected_of_bodyBad law h (.libElem e hl)
+        · have hb' : bodyNames.contains e.name = false := by simpa using hb
+          exact rejected_of_bodyBad law h (.hard _ (.unknownElement e hb' hn hl (hne e rfl)))
+
+/-! ### non-vacuity: one concrete document per kind of position -/
+
+def R1 : Str → Option Nat := fun _ => some 0
+theorem law_R1 : ReadsNumerals R1 := fun _ _ => ⟨0, rfl⟩
+
+def adv1 : Item := .elem { name := sAdvance, attrs := some [("width".toList, "500".toList)] }
+def anc1 : Item := .elem { name := sAnchor, attrs := some [(['x'], ['1']), (['y'], ['2']), (sIdentifier, ['i'])] }
+/-- two advances -/
+def jdDup : Spec.Doc := { prolog := [.decl], gattrs := some [("name".toList, ['a']), ("format".toList, ['2'])], items := [adv1, .comment, adv1] }
+/-- the identifier `i` on two anchors -/
+def jdId : Spec.Doc := { prolog := [.decl], gattrs := some [("name".toList, ['a']), ("format".toList, ['2'])], items := [anc1, anc1] }
+/-- a contour that consists of one off-curve point followed by a `move`: not a legal contour -/
+def jdIll : Spec.Doc :=
+  { prolog := [], gattrs := some [("name".toList, ['a']), ("format".toList, ['2'])],
+    items := [adv1, .outline (some []) false [.comment, .contour (some []) false
+      [.elem { name := sPoint, attrs := some [(['x'], ['0']), (['y'], ['0'])] },
+       .elem { name := sPoint, attrs := some [(['x'], ['0']), (['y'], ['0']), ("type".toList, "move".toList)] }]]] }
+
+theorem shaped_adv1 (d : Spec.Doc) (hp : ∀ e, e ∈ d.prolog → isProlog e = true) (hg : NodupAttrs d.gattrs)
+    (ho : d.gSelfClosed = false) : Shaped { d with items := [adv1] } := by
+  refine ⟨hp, hg, ho, ?_⟩
+  intro it hit
+  simp only [List.mem_cons, List.not_mem_nil, or_false] at hit
+  subst hit
+  exact ⟨by intro as h; cases h; decide, by decide⟩
+
+example : accepted (parseGlif R1 (Spec.flatten jdDup)) = false :=
+  duplicate_once_only_rejected (pre := [adv1, .comment]) (post := []) (ver := 2) law_R1
+    ⟨rfl, by decide +kernel, ⟨by decide, by intro as h; cases h; decide, rfl, by
+      intro it hit
+      simp only [List.mem_cons, List.not_mem_nil, or_false] at hit
+      rcases hit with rfl | rfl
+      · exact ⟨by intro as h; cases h; decide, by decide⟩
+      · trivial⟩, by decide +kernel⟩
+    (n := sAdvance) rfl (Or.inl rfl) (by decide)
+
+example : accepted (parseGlif R1 (Spec.flatten jdId)) = false :=
+  duplicate_identifier_rejected (pre := [anc1]) (post := []) (ver := 2) (i := ['i']) law_R1
+    ⟨rfl, by decide +kernel, ⟨by decide, by intro as h; cases h; decide, rfl, by
+      intro it hit
+      simp only [List.mem_cons, List.not_mem_nil, or_false] at hit
+      subst hit
+      exact ⟨by intro as h; cases h; decide, by decide⟩⟩, by decide +kernel⟩
+    (Or.inl rfl) rfl (by decide) (by decide)
+
+example : accepted (parseGlif R1 (Spec.flatten jdIll)) = false :=
+  illegal_contour_rejected (pre := [adv1]) (post := []) (ver := 2) (kpre := [.comment]) (kpost := []) law_R1
+    ⟨rfl, by decide +kernel, shaped_adv1 jdIll (by decide) (by intro as h; cases h; decide) rfl, by decide +kernel⟩
+    ⟨by intro k hk; simp only [List.mem_cons, List.not_mem_nil, or_false] at hk; subst hk; trivial,
+     by intro k hk; simp only [List.mem_cons, List.not_mem_nil, or_false] at hk; subst hk; rfl,
+     by decide, by intro i hi; simp [oitemIdents] at hi⟩
+    ⟨(by decide), (by intro a ha; cases ha), (by intro i hi; simp [Spec.get] at hi)⟩
+    ⟨by
+       intro k hk
+       simp only [List.mem_cons, List.not_mem_nil, or_false] at hk
+       rcases hk with rfl | rfl <;> exact ⟨by intro as h; cases h; decide, rfl⟩,
+     by
+       intro e he
+       simp only [List.mem_cons, CItem.elem.injEq, List.not_mem_nil, or_false] at he
+       rcases he with rfl | rfl <;> exact ⟨rfl, by decide +kernel⟩,
+     by decide, by intro i hi; simp [citemIdents, elemIdent, Spec.get] at hi⟩
+    (by rw [← C11.legalB_iff_legal]; decide)
+end
 
 end Glif
